@@ -537,8 +537,9 @@ def run(ctx: lib.Ctx) -> None:
                 ctx.violation(f'fixed defect is back: {f["what"]}', {'program': w['program'], 'observed': jsonable(obs), 'expected': w['expected'],
                                                                   'repro': f"Interpreter().execute({w['program']!r})"})
 
-    bad = ctx.coq_mismatches('arith', IMPORTS, 'fun c => run (fst c) (snd c)', 'res_eqb', 'op * list val', 'result val', coq_cases)
-    lbad = ctx.coq_mismatches('lenient', IMPORTS, 'fun c => run (fst c) (snd c)', 'res_eqb', 'op * list val', 'result val', lenient_cases)
+    allbad = ctx.coq_mismatches('arith', IMPORTS, 'fun c => run (fst c) (snd c)', 'res_eqb', 'op * list val', 'result val', coq_cases + lenient_cases)
+    bad = [i for i in allbad if i < len(coq_cases)]
+    lbad = [i for i in allbad if i >= len(coq_cases)]
     ctx.extra['lenient_acceptances'] = {'cases': len(lenient_cases), 'differ_from_model': len(lbad),
                                         'note': 'AND nat int, INT mutez, BYTES mutez/timestamp: outside the reference typing, not part of the verdict'}
     ctx.extra['model_disagreements'] = len(bad) + len(direct_bad)
